@@ -6,7 +6,7 @@
 use super::{DataType, Tuple, TupleSchema, Value};
 use arrow::array::{
     Array, ArrayRef, BooleanArray, FixedSizeListArray, Float32Array, Float64Array, Int32Array,
-    Int64Array, Int8Array, LargeListArray, ListArray, StringArray,
+    Int64Array, Int8Array, LargeListArray, ListArray, NullArray, StringArray,
 };
 use arrow::buffer::OffsetBuffer;
 use arrow::datatypes::{DataType as ArrowDataType, Field};
@@ -154,9 +154,9 @@ fn build_column_array(
             Ok(Arc::new(BooleanArray::from(values)))
         }
         DataType::Null => {
-            // All nulls
-            let values: Vec<Option<i32>> = vec![None; tuples.len()];
-            Ok(Arc::new(Int32Array::from(values)))
+            // All nulls. The schema declares Arrow's Null type for this column
+            // (DataType::to_arrow), so the array must be a NullArray as well.
+            Ok(Arc::new(NullArray::new(tuples.len())))
         }
         DataType::Vector { dim } => {
             // Build array from vectors - use FixedSizeList when dimension is known
@@ -255,7 +255,7 @@ fn build_column_array(
 
 /// Extract a Value from an Arrow array at a given index
 fn extract_value_from_array(array: &dyn Array, row_idx: usize) -> Result<Value, ArrowConvertError> {
-    if array.is_null(row_idx) {
+    if array.is_null(row_idx) || array.data_type() == &ArrowDataType::Null {
         return Ok(Value::Null);
     }
 
@@ -335,7 +335,7 @@ fn empty_array_for_type(dt: &DataType) -> ArrayRef {
         DataType::Float64 => Arc::new(Float64Array::from(Vec::<f64>::new())),
         DataType::String => Arc::new(StringArray::from(Vec::<&str>::new())),
         DataType::Bool => Arc::new(BooleanArray::from(Vec::<bool>::new())),
-        DataType::Null => Arc::new(Int32Array::from(Vec::<Option<i32>>::new())),
+        DataType::Null => Arc::new(NullArray::new(0)),
         DataType::Vector { dim } => {
             let field = Arc::new(Field::new("item", ArrowDataType::Float32, false));
             if let Some(fixed_dim) = dim {
